@@ -12,3 +12,130 @@ Lemma tie_release m :
   GMem.release_curr_page_and_update_addr (pagesizex m) (iters m) (addr m) =
   ([fst (release m)], addr (snd (release m))).
 Proof. reflexivity. Qed.
+
+(* ------------------------------------------------------------------ *)
+(* _ArrayMemPagesManager.from_bb_input: int(pagesizex / cols) is a float division followed
+   by truncation; on the memmap branch cols divides pagesizex, so the quotient is exact.  *)
+(* ------------------------------------------------------------------ *)
+From Coq Require Import ZArith List Bool Reals Lia Lra.
+From Flocq Require Import Core BinarySingleNaN.
+From Flocq Require Import IEEE754.PrimFloat.
+From BB Require Import Proofs.FloatFacts.
+Open Scope Z_scope.
+
+#[local] Existing Instance Hprec.
+#[local] Existing Instance Hmax.
+
+Lemma Zs2f_nonneg : forall z, 0 <= z -> Zs2f z = Z2f z.
+Proof.
+  intros z Hz. unfold Zs2f.
+  destruct (z <? 0) eqn:E; [ apply Z.ltb_lt in E; lia | reflexivity ].
+Qed.
+
+(* int(float(q)) = q for 0 <= q < 2^53 *)
+Lemma f2Z_trunc_Z2f : forall q, 0 <= q < 2 ^ 53 -> f2Z_trunc (Z2f q) = q.
+Proof.
+  intros q Hq.
+  destruct (Z2f_spec q Hq) as (HF & HR & HS).
+  unfold f2Z_trunc. rewrite <- B2SF_Prim2B.
+  destruct (Prim2B (Z2f q)) as [s | s | | s m e B]; simpl in HF, HR, HS; cbn [B2SF]; try discriminate.
+  - apply eq_IZR. exact HR.
+  - subst s. simpl in HR. unfold F2R in HR. simpl in HR.
+    destruct (0 <=? e) eqn:Ee.
+    + apply Z.leb_le in Ee. apply eq_IZR. rewrite <- HR.
+      rewrite mult_IZR. f_equal.
+      change 2 with (radix_val radix2). apply IZR_Zpower. exact Ee.
+    + apply Z.leb_gt in Ee.
+      assert (Hp : 0 < 2 ^ (- e)) by (apply Z.pow_pos_nonneg; lia).
+      assert (E : Z.pos m = q * 2 ^ (- e)).
+      { apply eq_IZR. rewrite mult_IZR, <- HR.
+        change 2 with (radix_val radix2). rewrite IZR_Zpower by lia.
+        rewrite Rmult_assoc, <- bpow_plus.
+        replace (e + - e) with 0 by lia. simpl. ring. }
+      rewrite E. apply Z.div_mul. lia.
+Qed.
+
+(* the correctly rounded quotient of two exactly represented integers is exact when the
+   divisor divides the dividend *)
+Lemma Z2f_div_exact : forall a b, 0 < b -> 0 <= a < 2 ^ 53 -> b < 2 ^ 53 -> a mod b = 0 ->
+  (Z2f a / Z2f b)%float = Z2f (a / b).
+Proof.
+  intros a b Hb Ha Hb' Hm.
+  assert (Ea : a = b * (a / b)) by (apply Z.div_exact; lia).
+  assert (Hq0 : 0 <= a / b) by (apply Z.div_pos; lia).
+  assert (Hq1 : a / b <= a) by (apply Z.div_le_upper_bound; nia).
+  destruct (div_spec_int a b) as (F & R & S); [ lia | lia | ].
+  destruct (Z2f_spec (a / b)) as (Fq & Rq & Sq); [ lia | ].
+  apply prim_eq; try congruence.
+  rewrite R, Rq.
+  replace (IZR a / IZR b)%R with (IZR (a / b)).
+  - apply rnd64_int. lia.
+  - rewrite Ea at 2. rewrite mult_IZR. field. apply not_0_IZR. lia.
+Qed.
+
+Lemma f2Z_trunc_exact_div : forall a b, 0 < b -> 0 <= a < 2 ^ 53 -> b < 2 ^ 53 -> a mod b = 0 ->
+  f2Z_trunc (Zs2f a / Zs2f b)%float = a / b.
+Proof.
+  intros a b Hb Ha Hb' Hm.
+  rewrite !Zs2f_nonneg by lia.
+  rewrite Z2f_div_exact by assumption.
+  apply f2Z_trunc_Z2f.
+  assert (0 <= a / b) by (apply Z.div_pos; lia).
+  assert (a / b <= a) by (apply Z.div_le_upper_bound; nia).
+  lia.
+Qed.
+
+(* from_bb_input on a 2-D np.memmap with can_release left at None *)
+Lemma tie_from_bb_input : forall cols offset data pagesize,
+  0 < cols -> 0 < pagesize -> pagesize * 512 < 2 ^ 53 -> cols < 2 ^ 53 ->
+  GMem.from_bb_input true 2 cols offset data pagesize None =
+  let m := from_memmap (pagesize * 512) cols offset data in
+  (can_release m, pagesizex m, iters m, addr m).
+Proof.
+  intros cols offset data pagesize Hc Hp Hpx Hc'.
+  unfold GMem.from_bb_input, from_memmap. cbv zeta.
+  change (true && (2 =? 2)) with true. rewrite andb_true_l.
+  destruct (((pagesize * 512) mod cols =? 0) && (offset <? cols)) eqn:E; cbn [negb].
+  - apply andb_prop in E. destruct E as (E & _). apply Z.eqb_eq in E.
+    rewrite f2Z_trunc_exact_div by (try assumption; lia).
+    reflexivity.
+  - reflexivity.
+Qed.
+
+(* with can_release forced by the caller only the flag changes *)
+Lemma tie_from_bb_input_forced : forall cols offset data pagesize b,
+  0 < cols -> 0 < pagesize -> pagesize * 512 < 2 ^ 53 -> cols < 2 ^ 53 ->
+  GMem.from_bb_input true 2 cols offset data pagesize (Some b) =
+  let m := from_memmap (pagesize * 512) cols offset data in
+  (b, pagesizex m, iters m, addr m).
+Proof.
+  intros cols offset data pagesize b Hc Hp Hpx Hc'.
+  unfold GMem.from_bb_input, from_memmap. cbv zeta.
+  change (true && (2 =? 2)) with true. rewrite andb_true_l.
+  destruct (((pagesize * 512) mod cols =? 0) && (offset <? cols)) eqn:E; cbn [negb].
+  - apply andb_prop in E. destruct E as (E & _). apply Z.eqb_eq in E.
+    rewrite f2Z_trunc_exact_div by (try assumption; lia).
+    reflexivity.
+  - reflexivity.
+Qed.
+
+(* anything that is not a 2-D memmap gets the inert manager *)
+Lemma tie_from_bb_input_not_memmap : forall ndim cols offset data pagesize,
+  GMem.from_bb_input false ndim cols offset data pagesize None = (false, pagesize * 512, 0, 0).
+Proof. reflexivity. Qed.
+
+Lemma tie_from_bb_input_not_2d : forall ndim cols offset data pagesize,
+  (ndim =? 2) = false ->
+  GMem.from_bb_input true ndim cols offset data pagesize None = (false, pagesize * 512, 0, 0).
+Proof.
+  intros ndim cols offset data pagesize H.
+  unfold GMem.from_bb_input. rewrite H. reflexivity.
+Qed.
+
+Lemma tie_from_bb_input_not_memmap_forced : forall is_memmap ndim cols offset data pagesize b,
+  is_memmap && (ndim =? 2) = false ->
+  GMem.from_bb_input is_memmap ndim cols offset data pagesize (Some b) = (b, pagesize * 512, 0, 0).
+Proof.
+  intros is_memmap ndim cols offset data pagesize b H.
+  unfold GMem.from_bb_input. rewrite H. reflexivity.
+Qed.
